@@ -180,3 +180,92 @@ Definition mon_c03 (cs : list N) : list N :=
     | _ => [0; V_BADCASE]
     end
   end.
+
+(* ---------- C04: arbitrary bytes into the parsers ---------- *)
+(* case: ver idw fh n body.. then 2 | 0 err | 1 consumed size reparse_eq <abstract tokens> nreser reser.. *)
+Definition V_LIB_REJECTS_VALID : N := 912.
+Definition V_LIB_FIELDS : N := 913.
+
+Record pm_case := mkPm { pm_ver : ver; pm_idw : N; pm_fh : N; pm_body : bytes; pm_rest : list N }.
+Definition tk_pm (cs : list N) : option pm_case :=
+  match cs with
+  | v :: idw :: fh :: t => do '(b, r) <- tk_lp t; Some (mkPm (if v =? 5 then PV50 else PV311) idw fh b r)
+  | _ => None
+  end.
+
+(* the library's extensions that are self-consistent and that its builders accept as well:
+   a reason code on the v3.1.1 acknowledgements *)
+Definition body_ok_lib (v : ver) (idw : N) (b : body) : bool :=
+  match v, b with
+  | PV311, BAck t pid tl =>
+    (4 <=? t) && (t <=? 7) && pid_ok idw pid
+    && match t_props tl with None => true | Some _ => false end
+    && opt_ok (ack_rc_ok t) (t_rc tl)
+  | PV311, BSubscribe pid ps es =>
+    (* the v5.0 option bits are tolerated in v3.1.1 entries (parser and builder alike) *)
+    pid_ok idw pid && match ps with [] => true | _ => false end && negb (match es with [] => true | _ => false end)
+    && forallb (fun e => str_ok (fst e) && sub_opts_ok PV50 (snd e)) es
+  | PV50, BAuth tl =>
+    (* the parser also reads the reason-code-only form of a successful AUTH *)
+    match t_rc tl, t_props tl with
+    | Some 0, None => true
+    | _, _ => body_ok v idw b
+    end
+  | _, _ => body_ok v idw b
+  end.
+
+Definition mon_c04 (cs : list N) : list N :=
+  match tk_pm cs with
+  | None => [0; V_BADCASE]
+  | Some c =>
+    match pm_rest c with
+    | [2] => [0; V_MONITOR; 1]                                (* a parser panicked *)
+    | 0 :: _ => []
+    | 1 :: consumed :: size :: re :: t =>
+      match tk_case t with
+      | Some a =>
+        match tk_lp (pc_rest a) with
+        | Some (reser, _) =>
+          if N.of_nat (length (pm_body c)) <? consumed then [0; V_MONITOR; 2; consumed]      (* claims more than it was given *)
+          else if negb (size =? N.of_nat (length reser)) then [0; V_MONITOR; 3; size; N.of_nat (length reser)]
+          else if negb (n2b re) then [0; V_MONITOR; 4]                                        (* re-parse differs *)
+          else if negb (body_ok_lib (pc_ver a) (pc_idw a) (pc_body a)) then [0; V_MONITOR; 5] (* breaks a builder rule *)
+          else []
+        | None => [0; V_BADCASE]
+        end
+      | None => [0; V_BADCASE]
+      end
+    | _ => [0; V_BADCASE]
+    end
+  end.
+
+(* correspondence with the reference decoder: whatever the (strict) reference accepts the library
+   accepts with the same field values; what the library accepts re-serialises to the reference
+   encoding of the field values its accessors report *)
+Definition chk_c04 (cs : list N) : list N :=
+  match tk_pm cs with
+  | None => [0; V_BADCASE]
+  | Some c =>
+    let fh := pm_fh c in
+    let spec := match decode_body (pm_ver c) (pm_idw c) (fh / 16) (fh mod 16) (pm_body c) with
+                | Some b => if body_ok (pm_ver c) (pm_idw c) b then Some b else None
+                | None => None end in
+    match pm_rest c with
+    | [2] => [0; V_PANIC_IMPL_ONLY]
+    | 0 :: _ => match spec with Some _ => [0; V_LIB_REJECTS_VALID] | None => [] end
+    | 1 :: consumed :: size :: re :: t =>
+      match tk_case t with
+      | Some a =>
+        match tk_lp (pc_rest a) with
+        | Some (reser, _) =>
+          match spec with
+               | Some b => if nlist_eqb (encode (pm_ver c) (pm_idw c) b) reser then [] else [0; V_LIB_FIELDS]
+               | None => []
+               end
+        | None => [0; V_BADCASE]
+        end
+      | None => [0; V_BADCASE]
+      end
+    | _ => [0; V_BADCASE]
+    end
+  end.
